@@ -44,7 +44,7 @@ def errName : Err → String
   | .calcTicket => "calc-ticket" | .calcKyc => "calc-kyc" | .calcSrc => "calc-src" | .calcNoRef => "calc-noref"
   | .calcIsSub => "calc-issub" | .calcBet => "calc-bet"
   | .cap => "cap" | .catcap => "catcap" | .pool => "pool" | .distribute => "distribute"
-  | .blocked => "blocked" | .insufficient => "insufficient" | .env => "env"
+  | .blocked => "blocked" | .insufficient => "insufficient" | .env => "env" | .codec => "codec"
 
 def b01 (b : Bool) : String := if b then "1" else "0"
 def joinWith (sep : String) (xs : List String) : String := sep.intercalate xs
